@@ -24,7 +24,8 @@ HEADER = ("from typing import (Any, Callable, Dict, Generic, List, NamedTuple, N
           "import abc, dataclasses, enum\n")
 
 DEF_KINDS = ["func", "cls", "const", "alias", "typeddict", "namedtuple", "dataclass", "protocol", "enum",
-             "overload", "generic", "decorator", "newtype", "final", "property", "abstract", "async", "classvar"]
+             "overload", "generic", "decorator", "newtype", "final", "property", "abstract", "async", "classvar",
+             "gnamedtuple", "gtypeddict"]
 
 
 class Def:
@@ -97,6 +98,15 @@ class Def:
             return f"class {n}(abc.ABC):\n{dec}    def am(self) -> {t1}:\n        return {VALUE[t1]}\n    @staticmethod\n    def sm(x: {t3}) -> {t2}:\n        return {VALUE[t2]}\n"
         if k == "async":
             return f"async def {n}(x: {t1}) -> {t2}:\n{noise}{err}    return {VALUE[t2]}\n"
+        if k == "gnamedtuple":
+            # generic named tuple, referenced by a class defined (and sorting) before it and recursively by itself
+            rec = f"    nxt: Optional['{n}[_T_{n}]'] = None\n" if ex else ""
+            return (f"_T_{n} = TypeVar('_T_{n}')\nclass A_{n}:\n    held: '{n}[{t1}]'\n"
+                    f"class {n}(NamedTuple, Generic[_T_{n}]):\n    a: _T_{n}\n    b: {t2}\n{rec}")
+        if k == "gtypeddict":
+            f2 = f"    z: {t3}\n" if ex else ""
+            return (f"_T_{n} = TypeVar('_T_{n}')\nclass A_{n}(TypedDict):\n    held: '{n}[{t1}]'\n"
+                    f"class {n}(TypedDict, Generic[_T_{n}]):\n    a: _T_{n}\n    b: {t2}\n{f2}")
         if k == "classvar":
             return f"class {n}:\n    count = {VALUE[t1]}\n    @classmethod\n    def make(cls, x: {t3}) -> '{n}':\n        return cls()\n" + (f"    def __call__(self) -> {t2}:\n        return {VALUE[t2]}\n" if ex else "")
         raise AssertionError(k)
@@ -154,6 +164,12 @@ class Def:
                                f"class S{uid}({ref}):\n    pass\nS{uid}()\n"])
         if k == "async":
             return f"async def w{uid}() -> {t2}:\n    return await {ref}({VALUE[t1]})\n"
+        if k == "gnamedtuple":
+            return rng.choice([f"u{uid}: {t1} = {ref}({VALUE[t1]}, {VALUE[t2]}).a\n", f"reveal_type({ref}({VALUE[t3]}, {VALUE[t2]}).a)\n",
+                               f"def w{uid}(p: {ref}[{t1}]) -> {t1}:\n    return p.a\n", f"u{uid}: {ref}[{t1}] = {ref}({VALUE[t1]}, {VALUE[t2]})\nreveal_type(u{uid})\n"])
+        if k == "gtypeddict":
+            return rng.choice([f"u{uid}: {ref}[{t1}] = {{'a': {VALUE[t1]}, 'b': {VALUE[t2]}}}\nreveal_type(u{uid}['a'])\n",
+                               f"def w{uid}(d: {ref}[{t1}]) -> {t1}:\n    return d['a']\n"])
         if k == "classvar":
             return rng.choice([f"u{uid}: {t1} = {ref}.count\n", f"u{uid} = {ref}.make({VALUE[t3]})\n", f"reveal_type({ref}.make({VALUE[t3]})())\n"])
         raise AssertionError(k)
@@ -264,7 +280,8 @@ class Project:
         kind = self.rng.choice(self.kinds)
         name = {"func": "f", "cls": "C", "const": "K", "alias": "A", "typeddict": "TD", "namedtuple": "NT",
                 "dataclass": "DC", "protocol": "P", "enum": "E", "overload": "ov", "generic": "G", "decorator": "deco",
-                "newtype": "NW", "final": "FIN", "property": "PR", "abstract": "AB", "async": "af", "classvar": "CV"}[kind] + self.new_uid()
+                "newtype": "NW", "final": "FIN", "property": "PR", "abstract": "AB", "async": "af", "classvar": "CV",
+                "gnamedtuple": "GN", "gtypeddict": "GD"}[kind] + self.new_uid()
         d = Def(name, kind, self.rng)
         m.defs.append(d)
         return d
